@@ -67,6 +67,10 @@ type StatusErr struct {
 	Reason  string
 	Message string
 	Retry   int // Retry-After seconds for 429/503
+	// BodyRetryOnly: details.retryAfterSeconds in the Status body without a Retry-After
+	// header - what the caller is left with once client-go's own retries of such an
+	// answer are used up (it then returns this very error)
+	BodyRetryOnly bool
 }
 
 func (e *StatusErr) Error() string { return fmt.Sprintf("%d %s: %s", e.Code, e.Reason, e.Message) }
